@@ -1132,7 +1132,7 @@ def MPD(phi: np.ndarray) -> float:
     w = np.abs(phi)
     num = phi.real * V[1, 1] - phi.imag * V[0, 1]
     den = np.sqrt(V[0, 1] ** 2 + V[1, 1] ** 2) * np.abs(phi)
-    MPD = np.sum(w * np.arccos(np.abs(num / den))) / np.sum(w)
+    MPD = np.nansum(w * np.arccos(np.abs(num / den))) / np.sum(w)
     return MPD
 
 
